@@ -956,13 +956,17 @@ namespace riddle
             tk = next();
 
             size_t c_pos = pos;
+            bool ids = true; // a cast is a (qualified) identifier between parentheses..
             do
             {
                 if (!match(ID_ID))
-                    error("expected identifier..");
+                {
+                    ids = false;
+                    break;
+                }
             } while (match(DOT_ID));
 
-            if (match(RPAREN_ID)) // a cast..
+            if (ids && match(RPAREN_ID)) // a cast..
             {
                 backtrack(c_pos);
                 std::vector<id_token> ids;
